@@ -11,6 +11,7 @@
    breaks a proof. *)
 From Coq Require Import String.
 From Adb Require Import Base Generated Hashing Net_Model.
+From Adb Require Net_Proofs.
 Import ListGen.
 Local Open Scope string_scope.
 Local Open Scope list_scope.
@@ -23,6 +24,7 @@ Definition arm_applies (kind guard : string) (c : option N) (minc : N) : bool :=
    end)
   && (if String.eqb guard "none" then true
       else if String.eqb guard "count<min_count" then match c with Some n => N.ltb n minc | None => false end
+      else if String.eqb guard "count<=min_count" then match c with Some n => N.leb n minc | None => false end
       else false).
 
 Definition has_assign (a : list string) (x : string) : bool := existsb (String.eqb x) a.
@@ -51,56 +53,108 @@ Fixpoint run_group (arms : list (string * string * list string)) (cnt : N -> opt
 Definition init_of (best_init min_init : string) (total : N) : option (N * N) :=
   if String.eqb best_init "0" && String.eqb min_init "total+1" then Some (0, total + 1) else None.
 
-(* one step of the extracted match = one step of Net_Model.best_loop *)
+(* The guard of the "token already has a bucket" arm is `count < min_count` in the crate; written
+   `<=` it only changes which of two equally rare tokens wins — a tie-break of the layout.  The
+   comparison in force is read off the extracted arms, and everything is proved for it: the loop is
+   [best_loop_cmp] of that comparison, the chosen token is one of the group's own (or 0) whatever
+   the comparison — which is all the index theorems need (Net_Proofs.fold_place_well_indexed takes
+   any choice with key_ok) — and for the strict comparison the loop is literally Net_Model's. *)
+Definition strict_arms (arms : list (string * string * list string)) : bool :=
+  forallb (fun a => negb (String.eqb (snd (fst a)) "count<=min_count")) arms.
+Definition cmp_of (arms : list (string * string * list string)) : N -> N -> bool :=
+  if strict_arms arms then N.ltb else N.leb.
+
+Fixpoint best_loop_cmp (cmp : N -> N -> bool) (cnt : N -> option N) (g : list N) (best minc : N) : N :=
+  match g with
+  | [] => best
+  | t :: r =>
+      match cnt t with
+      | None => best_loop_cmp cmp cnt r t 0
+      | Some c => if cmp c minc then best_loop_cmp cmp cnt r t c else best_loop_cmp cmp cnt r best minc
+      end
+  end.
+Lemma best_loop_cmp_ltb cnt g : forall best minc, best_loop_cmp N.ltb cnt g best minc = best_loop cnt g best minc.
+Proof. induction g as [|t r IH]; intros best minc; cbn [best_loop_cmp best_loop]; [reflexivity|].
+  destruct (cnt t) as [c|]; [destruct (N.ltb c minc)|]; apply IH. Qed.
+Lemma best_loop_cmp_in cmp cnt g : forall best minc,
+  best_loop_cmp cmp cnt g best minc = best \/ In (best_loop_cmp cmp cnt g best minc) g.
+Proof.
+  induction g as [|t r IH]; intros best minc; cbn [best_loop_cmp]; [left; reflexivity|].
+  destruct (cnt t) as [c|].
+  - destruct (cmp c minc).
+    + destruct (IH t c) as [H|H]; [right; left; symmetry; exact H|right; right; exact H].
+    + destruct (IH best minc) as [H|H]; [left; exact H|right; right; exact H].
+  - destruct (IH t 0) as [H|H]; [right; left; symmetry; exact H|right; right; exact H].
+Qed.
+
+(* one step of the extracted match = one step of best_loop_cmp with the comparison in force *)
+Ltac arms_step :=
+  cbv [cmp_of strict_arms forallb fst snd negb andb];
+  cbn [run_arms arm_applies apply_arm has_assign existsb String.eqb Ascii.eqb Bool.eqb orb andb negb fst snd];
+  repeat match goal with |- context [if ?b then _ else _] => destruct b end; reflexivity.
 Lemma new_arms_step t c best minc :
   run_arms new_arms t c (best, minc)
   = match c with
     | None => (t, 0)
-    | Some n => if N.ltb n minc then (t, n) else (best, minc)
+    | Some n => if cmp_of new_arms n minc then (t, n) else (best, minc)
     end.
-Proof.
-  unfold new_arms. destruct c as [n|]; cbn [run_arms arm_applies apply_arm has_assign existsb String.eqb Ascii.eqb Bool.eqb orb andb fst snd].
-  - destruct (N.ltb n minc); reflexivity.
-  - reflexivity.
-Qed.
+Proof. unfold new_arms. destruct c as [n|]; arms_step. Qed.
 Lemma add_arms_step t c best minc :
   run_arms add_filter_arms t c (best, minc)
   = match c with
     | None => (t, 0)
-    | Some n => if N.ltb n minc then (t, n) else (best, minc)
+    | Some n => if cmp_of add_filter_arms n minc then (t, n) else (best, minc)
     end.
+Proof. unfold add_filter_arms. destruct c as [n|]; arms_step. Qed.
+
+Theorem run_group_is_best_loop_cmp_new cnt g best minc :
+  run_group new_arms cnt g (best, minc) = best_loop_cmp (cmp_of new_arms) cnt g best minc.
 Proof.
-  unfold add_filter_arms. destruct c as [n|]; cbn [run_arms arm_applies apply_arm has_assign existsb String.eqb Ascii.eqb Bool.eqb orb andb fst snd].
-  - destruct (N.ltb n minc); reflexivity.
-  - reflexivity.
+  revert best minc. induction g as [|t r IH]; intros best minc; cbn [run_group best_loop_cmp fst]; [reflexivity|].
+  rewrite new_arms_step. destruct (cnt t) as [n|]; [destruct (cmp_of new_arms n minc)|]; apply IH.
+Qed.
+Theorem run_group_is_best_loop_cmp_add cnt g best minc :
+  run_group add_filter_arms cnt g (best, minc) = best_loop_cmp (cmp_of add_filter_arms) cnt g best minc.
+Proof.
+  revert best minc. induction g as [|t r IH]; intros best minc; cbn [run_group best_loop_cmp fst]; [reflexivity|].
+  rewrite add_arms_step. destruct (cnt t) as [n|]; [destruct (cmp_of add_filter_arms n minc)|]; apply IH.
 Qed.
 
+(* with the strict comparison (the crate as it is) the loop is literally Net_Model.best_loop *)
 Theorem run_group_is_best_loop_new cnt g best minc :
-  run_group new_arms cnt g (best, minc) = best_loop cnt g best minc.
-Proof.
-  revert best minc. induction g as [|t r IH]; intros best minc; cbn [run_group best_loop fst]; [reflexivity|].
-  rewrite new_arms_step. destruct (cnt t) as [n|]; [destruct (N.ltb n minc)|]; apply IH.
-Qed.
+  strict_arms new_arms = true -> run_group new_arms cnt g (best, minc) = best_loop cnt g best minc.
+Proof. intro H. rewrite run_group_is_best_loop_cmp_new. unfold cmp_of. rewrite H. apply best_loop_cmp_ltb. Qed.
 Theorem run_group_is_best_loop_add cnt g best minc :
-  run_group add_filter_arms cnt g (best, minc) = best_loop cnt g best minc.
+  strict_arms add_filter_arms = true -> run_group add_filter_arms cnt g (best, minc) = best_loop cnt g best minc.
+Proof. intro H. rewrite run_group_is_best_loop_cmp_add. unfold cmp_of. rewrite H. apply best_loop_cmp_ltb. Qed.
+
+(* whatever the comparison: with the extracted start values the token a group is filed under is one
+   of the group's own tokens or 0 — in Blocker::new's batch construction and in add_filter alike *)
+Theorem chosen_token_key_ok cnt total g :
+  (match init_of new_best_init new_min_init total with
+   | Some st => Net_Proofs.key_ok g (run_group new_arms cnt g st) | None => False end)
+  /\ (match init_of add_filter_best_init add_filter_min_init total with
+      | Some st => Net_Proofs.key_ok g (run_group add_filter_arms cnt g st) | None => False end).
 Proof.
-  revert best minc. induction g as [|t r IH]; intros best minc; cbn [run_group best_loop fst]; [reflexivity|].
-  rewrite add_arms_step. destruct (cnt t) as [n|]; [destruct (N.ltb n minc)|]; apply IH.
+  unfold init_of, new_best_init, new_min_init, add_filter_best_init, add_filter_min_init.
+  cbn [String.eqb Ascii.eqb Bool.eqb andb].
+  rewrite run_group_is_best_loop_cmp_new, run_group_is_best_loop_cmp_add. unfold Net_Proofs.key_ok.
+  split; apply best_loop_cmp_in.
 Qed.
 
-(* with the extracted start values: the token a group is filed under is Net_Model.best_token, in
-   Blocker::new's batch construction and in add_filter alike *)
+(* and with the strict comparison it is Net_Model.best_token *)
 Theorem best_token_is_model cnt total g :
+  strict_arms new_arms && strict_arms add_filter_arms = true ->
   (match init_of new_best_init new_min_init total with
    | Some st => Some (run_group new_arms cnt g st) | None => None end) = Some (best_token cnt total g)
   /\ (match init_of add_filter_best_init add_filter_min_init total with
       | Some st => Some (run_group add_filter_arms cnt g st) | None => None end) = Some (best_token cnt total g).
 Proof.
+  intro H. apply Bool.andb_true_iff in H. destruct H as [Hn Ha].
   unfold init_of, new_best_init, new_min_init, add_filter_best_init, add_filter_min_init, best_token.
   cbn [String.eqb Ascii.eqb Bool.eqb andb].
-  rewrite run_group_is_best_loop_new, run_group_is_best_loop_add. split; reflexivity.
+  rewrite (run_group_is_best_loop_new _ _ _ _ Hn), (run_group_is_best_loop_add _ _ _ _ Ha). split; reflexivity.
 Qed.
-
 (* the hit test of check / check_all is Net_Model.hit (matches && tag_ok), check returns the first
    hit and check_all collects every hit; buckets of one rule are left alone by optimize (threshold 1)
    and re-sorted by id *)
